@@ -69,7 +69,7 @@ pub fn generate(ctx: &mut Ctx) {
             }
         }
     }
-    let n = ctx.random_budget(480, 30_000, 1_500_000);
+    let n = ctx.random_budget(480, 120_000, 1_500_000);
     for i in 0..n {
         let mut rng = ctx.rng("hist", i);
         let mut o = gen::Opts::new(rng.chance(1, 2));
